@@ -257,7 +257,9 @@ var oddNames = map[string]string{
 // Writes in the order in which one target sees them), by case index so that
 // every shape occurs in every tier and seed:
 //
-//	0,1 nothing
+//	0   nothing
+//	1   every Write also holds a "collision partner" of its first name (N.tmp,
+//	    N.new, .N, #N#, ... see collideVariants)
 //	2   zero-length content ([]byte{}) for one name, alternating between
 //	    successive Writes (so a shared name goes non-empty -> empty -> non-empty)
 //	3   the same with nil content
@@ -310,6 +312,16 @@ func contentShapes(all []*writeSpec, idx int) {
 	}
 	for j, w := range all {
 		switch mode {
+		case 1:
+			// a name next to N that an implementation might use as a temporary
+			// for N (rotating through the variants), in every Write
+			if len(w.Files) > 0 && len(w.Files) < 4 {
+				f := w.Files[0]
+				v := collideVariants[(idx/8+j)%len(collideVariants)]
+				if n := v.Make(f.Name); find(w, n) < 0 {
+					w.Files = append(w.Files, fileSpec{Name: n, Size: 64 + j, Tag: f.Tag + ".partner"})
+				}
+			}
 		case 2, 6:
 			toggle(j, false)
 		case 3:
@@ -371,6 +383,9 @@ func countShapes(prefix string, first bool, w writeSpec) {
 			empties++
 		case f.Size >= 1<<20:
 			rec.Count(prefix+".content.1MiB", 1)
+		}
+		if strings.HasSuffix(f.Tag, ".partner") {
+			rec.Count(prefix+".name.collision-partner", 1)
 		}
 		switch {
 		case strings.Contains(f.Name, " "):
@@ -1626,6 +1641,10 @@ func TestCheck(t *testing.T) {
 			req = append(req, "errfault.failed."+cl)
 		}
 	}
+	req = append(req, "collide.after-write-ok", "collide.variant.all", "writes.name.collision-partner")
+	for _, v := range collideVariants {
+		req = append(req, "collide.variant."+v.Label)
+	}
 	req = append(req, "errfault.observe.hits", "errfault.later-write-fresh-dir-ok", "errfault.later-write-same-dir-ok")
 	rec.Note("require", req)
 	for _, e := range os.Environ() {
@@ -1639,7 +1658,10 @@ func TestCheck(t *testing.T) {
 	seqPlan := buildPlan()
 	reusePl := buildReusePlan()
 	errPl := buildErrPlan(len(seqPlan) + len(reusePl))
-	rec.Planned(len(seqPlan) + len(reusePl) + len(errPl))
+	collPl := buildCollidePlan()
+	collFirst := len(seqPlan) + len(reusePl) + len(errPl)
+	rec.Planned(collFirst + len(collPl))
+	rec.Note("colliding_name_cases", fmt.Sprintf("case indices %d..%d: crash-free; a file set holding a name N next to a name an implementation might use for a temporary or for bookkeeping around N (%d variants: N.tmp N.new N.bak N.old N~ N.swp N.lock N.part N.partial N.1 N-new N.tmp0 N.tmp.tmp N.temp N.orig .N .N.tmp .N.swp tmp-N #N#, and the names the pinned code uses itself: the target's base name, <base>.new, <base>.new.tmp, a version-directory-like name), one case per variant plus one with all of them; because the order in which Write walks its map is random, the same names are written 8 times in a row by one Dir (fresh contents), then once by a fresh Dir; after every nil return the target must show exactly that call's set by name and content", collFirst, collFirst+len(collPl)-1, len(collideVariants)))
 	rec.Note("error_return_fault_cases", fmt.Sprintf("case indices %d..%d: no process death; one filesystem step of a Write is made to fail with an error: removal of the previous version after the swap (that directory, or the base directory, gets the ext immutable attribute from the removeprev.before hook), mkdir/symlink/rename in a base directory pinned from that step's hook, or a file name that cannot be written (missing sub-directory, 300 characters, '.'); 0-2 successful Writes before, optionally a second Write while still pinned; then the pin is lifted and the same Dir (in half of the cases) and a fresh Dir write again. Oracle at every hook hit, after the failed Write and after the later Writes: absent only while no Write returned nil, else exactly one complete set of the history; the later Writes return nil and show their sets; lingering version directories counted only", len(seqPlan)+len(reusePl), len(seqPlan)+len(reusePl)+len(errPl)-1))
 	rec.Note("caller_owned_buffer_cases", fmt.Sprintf("case indices %d..%d: crash-free histories of one Dir with ONE caller-owned map whose byte slices are re-used and overwritten in place between Writes (all / one of three / changed and changed back / mutated right after Write returned), whose key set changes in the same map object, and identical consecutive sets in fresh buffers; after every nil return the target must show exactly the set of THAT call and only the current version directory may remain; one evaluation per Write, non-trivial = not the first Write of the history", len(seqPlan), len(seqPlan)+len(reusePl)-1))
 	for idx, p := range seqPlan {
@@ -1667,5 +1689,13 @@ func TestCheck(t *testing.T) {
 		}
 		rec.Begin(idx, p.desc())
 		runErrFault(idx, p, root, pinOK)
+	}
+	for i, p := range collPl {
+		idx := collFirst + i
+		if !mon.Mine(idx) {
+			continue
+		}
+		rec.Begin(idx, p.desc())
+		runCollide(idx, p, root)
 	}
 }
